@@ -1,4 +1,5 @@
 import OasisModel.Registry.Steps
+import OasisProofs.Helpers.Registry
 /-
 C17: interpreting the step lists (which are compared with the lists extracted from the Go source)
 gives exactly the model's `setNode` / `removeNode`.
